@@ -121,8 +121,8 @@ def archive_to_fsobj(src_tar):
         elif member.isfifo():
             yield fsFifo(location, **d)
         elif member.isdev():
-            d["major"] = int(member.major)
-            d["minor"] = int(member.minor)
+            d["major"] = int(member.devmajor)
+            d["minor"] = int(member.devminor)
             yield fsDev(location, **d)
         else:
             raise AssertionError(
@@ -179,7 +179,7 @@ def generate_contents(filepath, compressor="bz2", parallelize=True):
     try:
         tar_handle = tarfile.TarFile(name=filepath, fileobj=handle, mode="r")
     except tarfile.ReadError as e:
-        if not e.message.endswith("empty header"):
+        if not str(e).endswith(("empty header", "empty file")):
             raise
         tar_handle = []
     return convert_archive(tar_handle)
